@@ -1,6 +1,7 @@
 From Coq Require Import extraction.Extraction extraction.ExtrOcamlBasic.
-From TU Require Import Base C08_Model Pipeline_Model C08_Pipeline Pipeline_Tasks C08_Bytes Pipeline_Spell.
-Definition run := run_C08z.
-Definition check := check_C08y.
-Definition agree := agree_C08y.
+From TU Require Import Base C08_Model Pipeline_Model C08_Pipeline Pipeline_Tasks C08_Bytes Pipeline_Spell Pipeline_Stages.
+(** lines -5 / -6 / -7 (topic N: stage tables, TokenMasking, the Geometric sampler): Pipeline_Stages; every other line as before *)
+Definition run := run_C08n run_C08z.
+Definition check := check_C08n.
+Definition agree := agree_C08n.
 Extraction "model.ml" run check agree.
